@@ -94,7 +94,7 @@ def main():
         if r.error:
             chk.machinery_failure("Builder run failed: %s\n%s" % (r.error, r.out[-1500:]))
     opts = [(None, None), (True, None), (False, False)] if tier == "quick" else \
-        [(None, None), (True, None), (False, None), (True, False), (False, False), (True, True)]
+        [(None, None), (True, None), (False, False), (True, True)]
     grid = outcomes.settings_grid(opts=opts)
     big_grid = outcomes.settings_grid(versions=(2, 6, 9), modes=("app",), opts=[(None, None), (False, False)])
     small_grid = outcomes.settings_grid(versions=(4, 9), modes=("app",), opts=[(None, None), (False, False)]) + outcomes.settings_grid(versions=(2,), modes=("sig",))
